@@ -61,7 +61,14 @@ namespace glm
 		{
 			GLM_STATIC_ASSERT(std::numeric_limits<genType>::is_iec559 || GLM_CONFIG_UNRESTRICTED_FLOAT, "'round' only accept floating-point inputs");
 
-			return x < static_cast<genType>(0) ? static_cast<genType>(int(x - static_cast<genType>(0.5))) : static_cast<genType>(int(x + static_cast<genType>(0.5)));
+			// Nearest integer, halfway cases away from zero, like std::round: no detour through int (which overflows from 2^31 on
+			// and loses the sign of zero) and no x + 0.5 (which rounds 0.49999997f and the odd integers of the last binade up).
+			genType const a = std::fabs(x);
+			if(!(a >= static_cast<genType>(0.5)))
+				return x * static_cast<genType>(0); // zero with the sign of x; NaN stays NaN
+			genType const f = std::floor(a);
+			genType const r = (a - f >= static_cast<genType>(0.5)) ? f + static_cast<genType>(1) : f;
+			return x < static_cast<genType>(0) ? -r : r;
 		}
 #	endif
 
